@@ -63,8 +63,12 @@ def expectedNested : List (String × String × String × List String) := [
   ("memfs", "MemFS.Link", "oChild#mu", ["nParent#mu:w"]),
   -- Remove returns before locking when child == parent (the root of the view); otherwise child is an entry of parent
   ("memfs", "MemFS.Remove", "child#mu", ["parent#mu:w"]),
+  -- RemoveAll returns before locking when child == parent (the root of the view); otherwise child is an entry of parent
+  ("memfs", "MemFS.RemoveAll", "child#mu", ["parent#mu:w"]),
   -- guarded by `if nParent != oParent`
   ("memfs", "MemFS.Rename", "nParent#mu", ["oParent#mu:w"]),
+  -- the closure reading the owner of an entry (sticky bit) answers for the two parents without locking them again
+  ("memfs", "MemFS.Rename", "nd#mu", ["nParent#mu:w", "oParent#mu:w"]),
   -- a handle and its node are different objects
   ("memfs", "MemFile.Chmod", "f.nd#mu", ["f#mu:w"]),
   ("memfs", "MemFile.Chown", "f.nd#mu", ["f#mu:w"]),
